@@ -18,6 +18,10 @@ SYM_BY_CHARGE = {0: [2, 0, 3], 1: [1, 4], -1: [-1, 5]}
 DYADIC = [k / 8 for k in (8, -8, 4, -4, 16, 12, -20, 1, 3, -5, 24, 2)]
 
 
+def _Lchoices(Lmax):
+    return [l for l in range(2, Lmax + 1)] + [1]
+
+
 def coeff_strategy(style):
     if style == 'dyadic':
         return st.sampled_from(DYADIC)
@@ -56,8 +60,7 @@ def chain(draw, L, charged, nsym, cstyle, arbitrary_q=False):
 
 @st.composite
 def chain_list(draw, Lmax=8, nmax=12, for_mpo=False):
-    L = draw(st.sampled_from([2, 3, 4, 5, 6, 7, 8, 1][:Lmax] if Lmax < 8 else [2, 3, 4, 5, 6, 7, 8, 1]))
-    L = min(L, Lmax)
+    L = draw(st.sampled_from(_Lchoices(Lmax)))
     charged = draw(st.booleans())
     nsym = draw(st.integers(2, 5))
     cstyle = draw(st.sampled_from(['dyadic', 'dyadic', 'float']))
@@ -127,9 +130,11 @@ def random_opmap(qd, charged, seed, cplx=True):
 
 
 @st.composite
-def layered_graph(draw, Lmax=6, wmax=4, cstyle=None, id_scheme=None, charged=None):
-    Lg = draw(st.sampled_from([2, 3, 4, 5, 6, 1][:max(1, Lmax)])) if Lmax >= 2 else 1
-    Lg = min(Lg, Lmax)
+def layered_graph(draw, Lmax=6, wmax=4, cstyle=None, id_scheme=None, charged=None, Lfix=None):
+    if Lfix is not None:
+        Lg = Lfix
+    else:
+        Lg = draw(st.sampled_from(_Lchoices(Lmax)))
     if charged is None:
         charged = draw(st.booleans())
     if cstyle is None:
@@ -192,6 +197,34 @@ def layered_graph(draw, Lmax=6, wmax=4, cstyle=None, id_scheme=None, charged=Non
             eid = ecount if eid_scheme == 'seq' else (100 + 2 * ecount if eid_scheme == 'offset' else -(ecount + 1))
             edges.append([eid, node_ids[l][a], node_ids[l + 1][b], opics])
             ecount += 1
+    # optionally add 'twin' nodes: a second node with the same charge reached from the same node by an edge with the
+    # same operators (the configuration node fusion in simplify / merge_edges is meant for)
+    ntwin = draw(st.sampled_from([0, 0, 1, 2])) if Lg >= 2 else 0
+    for _ in range(ntwin):
+        cands = [n for n in nodes if 1 <= n[2] <= Lg - 1 and sum(1 for e in edges if e[2] == n[0]) == 1]
+        if not cands:
+            break
+        v = cands[draw(st.integers(0, len(cands) - 1))]
+        ein = next(e for e in edges if e[2] == v[0])
+        allids = [n[0] for n in nodes]
+        vid = max(allids) + 1 if id_scheme != 'negative' else min(allids) - 1
+        nodes.append([vid, v[1], v[2]])
+        alle = [e[0] for e in edges]
+        def fresh_eid():
+            alle2 = [e[0] for e in edges]
+            return max(alle2) + 1 if eid_scheme != 'negative' else min(alle2) - 1
+        edges.append([fresh_eid(), ein[1], vid, [list(x) for x in ein[3]]])
+        # outgoing edge(s) of the twin: copy one outgoing edge of v with (possibly) different operators
+        outs = [e for e in edges if e[1] == v[0]]
+        eo = outs[draw(st.integers(0, len(outs) - 1))]
+        if draw(st.booleans()):
+            ops = [list(x) for x in eo[3]]
+        else:
+            tq = next(n[1] for n in nodes if n[0] == eo[2])
+            dq = tq - v[1]
+            syms = SYM_BY_CHARGE[dq] if charged else [2, 0, 3, 1, -1]
+            ops = [[syms[draw(st.integers(0, len(syms) - 1))], draw(coeff_strategy(cstyle))]]
+        edges.append([fresh_eid(), vid, eo[2], ops])
     # optionally add a cancelling parallel edge
     if edges and draw(st.sampled_from(range(6))) == 5:
         src = edges[draw(st.integers(0, len(edges) - 1))]
@@ -270,8 +303,7 @@ def tree_node(draw, remaining, q, charged, cstyle, depth=0):
 
 @st.composite
 def tree_list(draw, Lmax=6):
-    L = draw(st.sampled_from([2, 3, 4, 5, 6, 1][:Lmax] if Lmax < 6 else [2, 3, 4, 5, 6, 1]))
-    L = min(L, Lmax)
+    L = draw(st.sampled_from(_Lchoices(Lmax)))
     charged = draw(st.booleans())
     cstyle = draw(st.sampled_from(['dyadic', 'dyadic', 'float']))
     n = draw(st.sampled_from([1, 2, 3, 4]))
@@ -301,8 +333,7 @@ def tree_height(node):
 
 @st.composite
 def automaton(draw, Lmax=6):
-    L = draw(st.sampled_from([2, 3, 4, 5, 6, 1][:Lmax] if Lmax < 6 else [2, 3, 4, 5, 6, 1]))
-    L = min(L, Lmax)
+    L = draw(st.sampled_from(_Lchoices(Lmax)))
     nn = draw(st.integers(2, 5))
     charged = draw(st.booleans())
     cstyle = draw(st.sampled_from(['dyadic', 'dyadic', 'float']))
